@@ -95,6 +95,7 @@ type Interp struct {
 	extra     map[string]interface{}
 	syncHook  func(op string, mu value)
 	panics    []*panicState
+	sched     *schedState
 	maxLZ     int // leading zero bytes allowed in generated keys / signatures
 	errStack  []string
 	errWhere  string
@@ -399,6 +400,9 @@ func (in *Interp) store(addr *value, v value) {
 }
 
 func (in *Interp) checkFrozen(addr *value) {
+	if in.sched != nil {
+		in.schedEvent("write", addr)
+	}
 	if len(in.frozen) == 0 {
 		return
 	}
@@ -410,6 +414,9 @@ func (in *Interp) checkFrozen(addr *value) {
 func (in *Interp) load(addr *value) value {
 	if addr == nil {
 		panic(targetPanic{Msg: "nil pointer dereference"})
+	}
+	if in.sched != nil {
+		in.schedEvent("read", addr)
 	}
 	return copyVal(*addr)
 }
@@ -1609,6 +1616,9 @@ func (in *Interp) mapFind(m *MapV, key value) *MapEntry {
 	if m == nil {
 		return nil
 	}
+	if in.sched != nil {
+		in.schedEvent("read", m)
+	}
 	var live []*MapEntry
 	var conds []*Term
 	none := []*Term{}
@@ -1667,6 +1677,9 @@ func (in *Interp) mapUpdate(m *MapV, key, v value) {
 	}
 	if m.frozen {
 		in.recordViolation("frozen-write", "assert", "write to frozen input map in "+in.where())
+	}
+	if in.sched != nil {
+		in.schedEvent("write", m)
 	}
 	if e := in.mapFind(m, key); e != nil {
 		e.V = copyVal(v)
@@ -1751,6 +1764,9 @@ func (in *Interp) rangeIter(x value, t types.Type) iterator {
 	switch x := x.(type) {
 	case *MapV:
 		it := &mapIter{m: x}
+		if x != nil && in.sched != nil {
+			in.schedEvent("read", x)
+		}
 		if x != nil {
 			for _, e := range x.Entries {
 				if !e.Del {
